@@ -23,7 +23,7 @@ from simdag.seams.store import copy_store
 
 META = {"C16": {
     "level": "exploration",
-    "quick_runs": 1500,
+    "quick_runs": 10000,
     "block": 25,
     "thorough_budget_s": 600,
     "rule": ("one run = two seeded builder scripts A, B over the same phase names and default transitions "
